@@ -3,9 +3,9 @@ CONSTANTS
   InsSeq <- Ins2
   Flushers = {"f"}
   Closer = "c"
-  Tables = {"t1", "t2"}
+  Tables = {"t1"}
   LocSeq <- Loc2
-  FreeLocs = FALSE
+  FreeLocs = TRUE
   BatchSizes = {1, 2, 3}
   PerIns = 2
   PerFl = 1
